@@ -448,6 +448,26 @@ fn run_crash_history(
     })
 }
 
+/// Reserve-tail cases for compact(): the region's length sits at -1 / 0 / +1 of a page boundary
+/// inside a larger reserve, with another region behind it.
+pub fn directed_compact_tail_histories() -> Vec<Vec<ROp>> {
+    let mut out = vec![];
+    for len in [1usize, 2, 4095, 4096, 4097, 8191, 8192, 8193, 12289, 16385] {
+        out.push(vec![
+            ROp::Create("t".into()),
+            ROp::Write { name: "t".into(), n: 20_000 },
+            ROp::Create("behind".into()),
+            ROp::Write { name: "behind".into(), n: 10 },
+            ROp::Truncate { name: "t".into(), from: len },
+            ROp::Flush,
+            ROp::Compact,
+            ROp::Write { name: "t".into(), n: 3 },
+            ROp::Compact,
+        ]);
+    }
+    out
+}
+
 pub fn directed_crash_histories() -> Vec<Vec<ROp>> {
     let w = |n: &str, k: usize| ROp::Write { name: n.into(), n: k };
     let c = |n: &str| ROp::Create(n.into());
@@ -495,7 +515,11 @@ pub fn crash_campaign(ctx: &Ctx, report: &Report, gcfg: &GenCfg, ccfg: &CrashCfg
             );
         }
     };
-    for ops in directed_crash_histories() {
+    let mut directed = directed_crash_histories();
+    if matches!(ccfg.focus, Focus::Compact) {
+        directed.extend(directed_compact_tail_histories());
+    }
+    for ops in directed {
         let mut s = CrashStats::default();
         let mut rng = Rng::derive(ctx.seed, &[tag, 999]);
         let thorough = CrashCfg { focus: ccfg.focus, sample_outside: 1, max_single: 64, n_random: 8 };
